@@ -444,10 +444,19 @@ def run(ctx):
             ctx.violation(w, what)
 
     base0 = run_stream(b'')['image']
+    store_enc = L.enc_case((488, c06.TAGS, []))[1:-1]
+    names = {t['name'].lower(): k for k, t in enumerate(c06.TAGS)}
+    valid = []
     for i in range(N):
         session = c06.gen_session(rng, None)
         # make writes frequent: they are what a corrupted stream could abuse
-        frames = [c06.frame_of(*x) for x in session if x[0][0] != 'unregister']
+        session = [x for x in session if x[0][0] != 'unregister']
+        frames = [c06.frame_of(*x) for x in session]
+        if i % 4 == 0:
+            # the unmutated session too: afterwards the tags must be what the session model says (Model.Session over Model.Logix, where
+            # only acknowledged writes change elements) - a refused or half-executed request that leaves a trace shows up here
+            r0 = run_stream(b''.join(frames))
+            valid.append((session, frames, r0))
         kind, stream = mutate(rng, frames)
         kinds[kind.split('@')[0].rstrip('0123456789')] = kinds.get(kind.split('@')[0].rstrip('0123456789'), 0) + 1
         r = run_stream(stream)
@@ -496,6 +505,16 @@ def run(ctx):
                 continue
         if len(hostile_for_tcp) < 5 and kind.split('@')[0] in ('random30', 'truncate', 'field16', 'garbage-after', 'cut-frame1'):
             hostile_for_tcp.append(stream)
+    for (session, frames, r0), o in zip(valid, core.run_model('session', [c06.enc_model(None, store_enc, sess, names) for sess, _, _ in valid])):
+        _, mhash = c06.dec_model(o)
+        if r0['hang'] or r0['bad_exc']:
+            bad(dict(stream=b''.join(frames).hex()), 'a well-formed session did not finish'); continue
+        if L.hash_list(r0['image']) != mhash:
+            bad(dict(session=[(q[0], L.describe_req(q[2]) if q[0] == 'send' else None) for q, _, _, _ in session], stream=b''.join(frames).hex(),
+                     replies=[x.hex() for x in r0['replies']]),
+                'after a well-formed session the tags differ from the array model in which only acknowledged writes change elements '
+                '(a refused or half-executed request left a trace)')
+    cov['valid_sessions_against_the_session_model'] = len(valid)
     nudp = udp_check(ctx, bad)
     cov['udp_datagram_sequences'] = nudp
     for pm in tcp_smoke(hostile_for_tcp or [b'\x6f\x00\xff\xff' + bytes(20)])[:2]:
